@@ -57,6 +57,7 @@ func (r *run) usage() {
 	r.stream("epochKeys", r.epochKeys)
 	r.stream("concurrentReuse", r.concurrentReuse)
 	r.stream("passRoles", r.passRoles)
+	r.stream("keyFamilies", r.keyFamilies)
 	r.stream("ownSigner", r.ownSigner)
 	r.stream("ownOthers", r.ownOthers)
 }
